@@ -10,9 +10,24 @@ Spelling differences that do not change the set of paths (if/else against early 
 expression, nested ifs against `and`, De Morgan forms, `if not c: A else: B` against `if c: B else: A`) give the same paths.
 """
 import ast
-import copy
 
 from .engine import AnalysisError, norm
+
+def clone(n):
+    """copy of a syntax tree by its fields only (the engine hangs a _parent attribute on every node; copy.deepcopy would follow it
+    and copy the whole module)"""
+    if isinstance(n, list):
+        return [clone(x) for x in n]
+    if not isinstance(n, ast.AST):
+        return n
+    m = type(n)()
+    for f, v in ast.iter_fields(n):
+        setattr(m, f, clone(v) if isinstance(v, (ast.AST, list)) else v)
+    for a in ('lineno', 'col_offset', 'end_lineno', 'end_col_offset'):
+        if hasattr(n, a):
+            setattr(m, a, getattr(n, a))
+    return m
+
 
 NEG_CMP = {ast.IsNot: ast.Is, ast.NotEq: ast.Eq, ast.NotIn: ast.In}
 
@@ -155,34 +170,85 @@ def split_simple(st):
     return out
 
 
-def enumerate_paths(body, limit=2048):
-    paths = _block(body, [Path()], limit)
+def enumerate_paths(body, limit=2048, relevant=None):
+    """relevant: optional predicate on If statements; an If for which it is false is kept whole as one opaque element (like a loop)"""
+    paths = _block(body, [Path()], limit, relevant)
     for p in paths:
         if p.exit is None:
             p.exit = ('fall', None)
     return paths
 
 
-def _block(body, paths, limit):
+def relevance(body, seeds, control=True):
+    """-> predicate for enumerate_paths: an If matters when it contains a seed statement, (control) a return/break/continue, or binds
+    a name that a seed, a relevant test or a statement feeding them reads (backward slice on names, to a fixpoint)"""
+    seeds = list(seeds)
+    seed_ids = set(id(x) for s_ in seeds for x in ast.walk(s_))
+    needed = set(n.id for s_ in seeds for n in ast.walk(s_) if isinstance(n, ast.Name) and isinstance(n.ctx, ast.Load))
+    ifs, simples = [], []
+    todo = list(body)
+    while todo:
+        st = todo.pop()
+        if isinstance(st, (ast.FunctionDef, ast.AsyncFunctionDef, ast.ClassDef)):
+            continue
+        if isinstance(st, ast.If):
+            ifs.append(st)
+        elif not isinstance(st, (ast.For, ast.While, ast.Try, ast.With)):
+            simples.append(st)
+        for fld in ('body', 'orelse', 'finalbody'):
+            sub = getattr(st, fld, None)
+            if isinstance(sub, list) and sub and isinstance(sub[0], ast.stmt):
+                todo.extend(sub)
+        for h in getattr(st, 'handlers', []) or []:
+            todo.extend(h.body)
+    rel = set()
+    changed = True
+    while changed:
+        changed = False
+        for st in simples:
+            if id(st) in seed_ids:
+                continue
+            if _stored_names(st) & needed:
+                reads = set(n.id for n in ast.walk(st) if isinstance(n, ast.Name) and isinstance(n.ctx, ast.Load))
+                if not reads <= needed:
+                    needed |= reads
+                    changed = True
+        for st in ifs:
+            if id(st) in rel:
+                continue
+            inside = [x for part in st.body + st.orelse for x in ast.walk(part)]
+            hit = any(id(x) in seed_ids for x in inside) or \
+                (control and any(isinstance(x, (ast.Return, ast.Break, ast.Continue)) for x in inside)) or \
+                bool(set(x.id for x in inside if isinstance(x, ast.Name) and isinstance(x.ctx, (ast.Store, ast.Del))) & needed)
+            if hit:
+                rel.add(id(st))
+                needed |= set(n.id for n in ast.walk(st.test) if isinstance(n, ast.Name))
+                changed = True
+    return lambda st: id(st) in rel
+
+
+def _block(body, paths, limit, relevant=None):
     for st in body:
         live = [p for p in paths if p.exit is None]
         done = [p for p in paths if p.exit is not None]
         if not live:
             return done
-        paths = done + _stmt(st, live, limit)
+        paths = done + _stmt(st, live, limit, relevant)
         if len(paths) > limit:
             raise AnalysisError('construct not understood: more than %d paths' % limit)
     return paths
 
 
-def _stmt(st, paths, limit):
+def _stmt(st, paths, limit, relevant=None):
     out = []
+    if isinstance(st, ast.If) and relevant is not None and not relevant(st):
+        return [p.extended(stmts=[st]) for p in paths]
     if isinstance(st, ast.If):
         for want, blk in ((True, st.body), (False, st.orelse)):
             for cs in atoms(st.test, want):
                 # conditional expressions in the test itself
                 start = [p.extended(conds=cs) for p in paths]
-                out += _block(blk, start, limit)
+                out += _block(blk, start, limit, relevant)
         return out
     if isinstance(st, (ast.With, ast.AsyncWith)):
         cur = paths
@@ -191,24 +257,24 @@ def _stmt(st, paths, limit):
             if it.optional_vars is not None:
                 e = ast.copy_location(ast.Assign(targets=[it.optional_vars], value=it.context_expr), st)
             cur = [p.extended(stmts=[e]) for p in cur]
-        return _block(st.body, cur, limit)
+        return _block(st.body, cur, limit, relevant)
     if isinstance(st, ast.Try):
-        normal = _block(st.body, paths, limit)
+        normal = _block(st.body, paths, limit, relevant)
         res = []
         cont = [p for p in normal if p.exit is None]
         res += [p for p in normal if p.exit is not None]
         if st.orelse:
-            cont = _block(st.orelse, cont, limit)
+            cont = _block(st.orelse, cont, limit, relevant)
         res += cont
         for h in st.handlers:
             # the body may have been left anywhere: the handler path carries none of its statements (a rule that needs them must
             # look at the normal path); the marker tells that a handler was taken
             mark = ast.copy_location(ast.Expr(value=ast.Constant(value='<except %s>' % (norm(h.type) if h.type is not None else ''))), h)
-            res += _block(h.body, [p.extended(stmts=[mark]) for p in paths], limit)
+            res += _block(h.body, [p.extended(stmts=[mark]) for p in paths], limit, relevant)
         if st.finalbody:
             live = [p for p in res if p.exit is None]
             ended = [p for p in res if p.exit is not None]
-            res = ended + _block(st.finalbody, live, limit)
+            res = ended + _block(st.finalbody, live, limit, relevant)
         return res
     if isinstance(st, ast.Return):
         for p in paths:
@@ -330,6 +396,7 @@ class Expanded(object):
 
     def __init__(self):
         self.stmts, self.conds, self.env, self.feasible = [], [], {}, True
+        self.ncond_at = []          # ncond_at[i]: how many entries of .conds were decided before statement i
 
     def __iter__(self):            # (pairs, env) unpacking
         return iter((self.stmts, self.env))
@@ -343,7 +410,7 @@ class Expanded(object):
         return out
 
 
-def expand(path, env=None, cap=1500):
+def expand(path, env=None, cap=1500, keep=()):
     """forward substitution of plain local assignments along the path.  Every local read is replaced by the expression that defines
     it on this path, in statements and in the decisions taken, so temporaries disappear: `a = f(x); b = a.size; d[k] = b` and
     `d[k] = f(x).size` expand to the same stored value.  A name whose definition is not a plain assignment on the path (loop
@@ -355,7 +422,7 @@ def expand(path, env=None, cap=1500):
     for item in path.items:
         if item[0] == 'cond':
             e, pol = item[1], item[2]
-            x = _Sub(env).visit(copy.deepcopy(e)) if env else e
+            x = _Sub(env).visit(clone(e)) if env else e
             # a decision on a named condition (`ok = a and b; if ok:`) is a decision on its parts when that is unambiguous
             alts = atoms(x, pol)
             parts = alts[0] if len(alts) == 1 else [(x, pol)]
@@ -373,28 +440,30 @@ def expand(path, env=None, cap=1500):
                     decided[key] = p2
             continue
         st = item[1]
-        if isinstance(st, (ast.For, ast.AsyncFor, ast.While, ast.FunctionDef, ast.AsyncFunctionDef, ast.ClassDef)):
-            # expand what the loop reads from outside, then forget what it binds
+        if isinstance(st, (ast.For, ast.AsyncFor, ast.While, ast.If, ast.FunctionDef, ast.AsyncFunctionDef, ast.ClassDef)):
+            # (an If arrives here only when it was kept opaque) expand what the loop reads from outside, then forget what it binds
             killed = _stored_names(st)
             if isinstance(st, (ast.FunctionDef, ast.AsyncFunctionDef, ast.ClassDef)):
                 killed = set([st.name])
                 new = st
             else:
                 inner_env = dict((k, v) for k, v in env.items() if k not in killed)
-                new = _Sub(inner_env).visit(copy.deepcopy(st)) if inner_env else st
+                new = _Sub(inner_env).visit(clone(st)) if inner_env else st
             for k in killed:
                 env.pop(k, None)
+            res.ncond_at.append(len(res.conds))
             res.stmts.append((st, new))
             decided = {}
             continue
-        new = _Sub(env).visit(copy.deepcopy(st)) if env else copy.deepcopy(st)
+        new = _Sub(env).visit(clone(st)) if env else clone(st)
+        res.ncond_at.append(len(res.conds))
         res.stmts.append((st, new))
         if not _pure(st):
             decided = {}          # a call may change what an earlier decision looked at
         if isinstance(st, ast.Assign):
             for t in st.targets:
                 if isinstance(t, ast.Name):
-                    if _size(new.value) <= cap:
+                    if _size(new.value) <= cap and t.id not in keep:
                         env[t.id] = new.value
                     else:
                         env.pop(t.id, None)
@@ -425,14 +494,14 @@ def expand(path, env=None, cap=1500):
 
 def expanded_exit(path, env):
     if path.exit and path.exit[0] == 'return' and path.exit[1] is not None and env:
-        return _Sub(env).visit(copy.deepcopy(path.exit[1]))
+        return _Sub(env).visit(clone(path.exit[1]))
     return path.exit[1] if path.exit else None
 
 
 # ------------------------------------------------------------------------------------- definitions that dominate a statement
 def subst(expr, env):
     """copy of expr with every local read replaced by its defining expression in env"""
-    return _Sub(env).visit(copy.deepcopy(expr)) if env else expr
+    return _Sub(env).visit(clone(expr)) if env else expr
 
 
 def dominating_env(fn, stmt, cap=1500, keep=()):
